@@ -29,6 +29,7 @@ INJECT = {
     "packet/src/bfd.rs": ["p_bfd"],
     "packet/src/rd.rs": ["p_rd"],
     "packet/src/mpls.rs": ["p_mpls"],
+    "packet/src/rtc.rs": ["p_rtc"],
     "packet/src/bmp.rs": ["p_bmp"],
     "packet/src/mrt.rs": ["p_mrt"],
     "table/src/lib.rs": ["t_lib"],
